@@ -128,8 +128,9 @@ func H_C01_roundtrip() {
 }
 
 // c01S: a string leaf/key value of exactly n bytes that is valid UTF-8 (YANG strings are Unicode).
+// (thorough tier: n+1 bytes, which brings in two-byte UTF-8 sequences)
 func c01S(name string, n int) string {
-	s := symStringN(name, n)
+	s := symStringN(name, n+symTier())
 	symAssume(utf8.ValidString(s))
 	return s
 }
